@@ -14,10 +14,11 @@ CONSTANTS MaxWire, Variants, MaxCallbacks
 VARIABLES wire, pending, ntask, ncb, variant, pos, hasAes, hasHmac, yielded, last
 vars == <<wire, pending, ntask, ncb, variant, pos, hasAes, hasHmac, yielded, last>>
 
-HasPriv(v) == v \in {"rsa", "rsa_aes"}
+\* "rsa_aesonly": private key and AES key but no HMAC key - nothing verifies until the first check-in supplies both keys
+HasPriv(v) == v \in {"rsa", "rsa_aes", "rsa_aesonly"}
 Init == /\ wire = <<>> /\ pending = "none" /\ ntask = 0 /\ ncb = 0
         /\ variant \in Variants /\ pos = 0
-        /\ hasAes = (variant \in {"rand", "aeshmac", "rsa_aes"}) /\ hasHmac = (variant \in {"rand", "aeshmac", "rsa_aes"})
+        /\ hasAes = (variant \in {"rand", "aeshmac", "rsa_aes", "rsa_aesonly"}) /\ hasHmac = (variant \in {"rand", "aeshmac", "rsa_aes"})
         /\ yielded = <<>> /\ last = [op |-> "init"]
 Room == Len(wire) < MaxWire
 Emit(m) == wire' = Append(wire, m)
@@ -64,7 +65,7 @@ Next == CheckIn \/ ServeTask \/ ServeEmpty \/ (\E n \in 1..MaxCallbacks : Callba
 Spec == Init /\ [][Next]_vars
 
 \* ---- R: declarative expectation over a wire prefix
-KeysKnown(v, w, i) == v # "rsa" \/ \E j \in 1..(i - 1) : w[j].kind = "G"
+KeysKnown(v, w, i) == v \notin {"rsa", "rsa_aesonly"} \/ \E j \in 1..(i - 1) : w[j].kind = "G"
 Item(v, w, i) == LET m == w[i] IN
     CASE m.kind = "G" -> IF HasPriv(v) THEN <<[t |-> "metadata", id |-> 0]>> ELSE <<>>
       [] m.kind = "Rt" -> IF KeysKnown(v, w, i) THEN <<[t |-> "task", id |-> m.task]>> ELSE <<>>
@@ -74,7 +75,7 @@ RECURSIVE Expect(_, _, _)
 Expect(v, w, n) == IF n = 0 THEN <<>> ELSE Expect(v, w, n - 1) \o Item(v, w, n)
 YieldedIsProjection == yielded = Expect(variant, wire, pos)
 \* with sufficient key material from the start every packet sent is decoded
-Complete == (variant # "rsa" /\ pos = Len(wire)) =>
+Complete == (variant \notin {"rsa", "rsa_aesonly"} /\ pos = Len(wire)) =>
                Len(SelectSeq(yielded, LAMBDA y : y.t = "task")) = Cardinality({ i \in 1..Len(wire) : wire[i].kind = "Rt" })
 \* unrelated messages never change the decoder
 UnrelatedHarmless == [][(last'.op = "decode" /\ wire[last'.i].kind = "U") => (last'.err /\ hasAes' = hasAes /\ hasHmac' = hasHmac /\ yielded' = yielded)]_vars
